@@ -5,7 +5,7 @@ A program spec is a JSON dict:
    "funcs": [{fid, name, module, cls, kind, params, body, wrapx, inner, annotate}]}
 
 kinds : func | wrapped | method | classmethod | staticmethod | property | sproperty (settable; not resolvable)
-body  : plain | gen | coro
+body  : plain | gen | coro | agen (async generator: yields and awaits)
 params: [{"n": name, "k": "po"|"pk"|"ko"|"var"|"kw", "d": has_default}]
 inner : optional nested function {fid, params, body} defined inside this function's body and only
         ever called from it (closure over the first named parameter, if any)
@@ -135,7 +135,7 @@ def render_body(f, ind, is_method_with_super=False):
         L.append(f"{j}elif _k == 4:")
         L.append(f"{j}    _P(_op[3])")
         L.append(_site(ind2 + 8, f"_inner{inner['fid']}(*_op[1], **_op[2])", "_op[4]").rstrip("\n"))
-    if body == "gen":
+    if body in ("gen", "agen"):
         L.append(f"{j}elif _k == 5:")
         L.append(f"{j}    _R((\"Y\", _c, _op[1]))")
         L.append(f"{j}    if _op[2]:")
@@ -145,12 +145,17 @@ def render_body(f, ind, is_method_with_super=False):
         L.append(f"{j}            _R((\"C\", _c))")
         L.append(f"{j}    else:")
         L.append(f"{j}        yield _op[1]")
-    L.append(f"{j}elif _k == 6:")
-    L.append(f"{j}    _v = _op[1]; _R((\"R\", _c, _v)); return _v")
-    L.append(f"{j}elif _k == 7:")
-    L.append(f"{j}    _R((\"R\", _c, None)); return None")
-    L.append(f"{j}elif _k == 8:")
-    L.append(f"{j}    _R((\"R\", _c, 7)); return 7")
+    if body == "agen":
+        # an async generator cannot return a value
+        L.append(f"{j}elif _k == 7:")
+        L.append(f"{j}    _R((\"R\", _c, None)); return")
+    else:
+        L.append(f"{j}elif _k == 6:")
+        L.append(f"{j}    _v = _op[1]; _R((\"R\", _c, _v)); return _v")
+        L.append(f"{j}elif _k == 7:")
+        L.append(f"{j}    _R((\"R\", _c, None)); return None")
+        L.append(f"{j}elif _k == 8:")
+        L.append(f"{j}    _R((\"R\", _c, 7)); return 7")
     L.append(f"{j}elif _k == 9:")
     L.append(f"{j}    raise _op[1]")
     if names:
@@ -161,7 +166,7 @@ def render_body(f, ind, is_method_with_super=False):
             L.append(f"{j}    {kw} _op[1] == \"{n}\": {n} = _op[2]")
     # 11: start a handle
     L.append(f"{j}elif _k == 11:")
-    L.append(f"{j}    _H[_op[1]] = [_op[2](*_op[3], **_op[4]), _op[5], False, _op[6]]")
+    L.append(f"{j}    _H[_op[1]] = [_op[2](*_op[3], **_op[4]), _op[5], False, _op[6], None]")
     # 12: step a handle
     L.append(f"{j}elif _k == 12:")
     L.append(f"{j}    _h = _H.get(_op[1])")
@@ -174,7 +179,28 @@ def render_body(f, ind, is_method_with_super=False):
     L.append(f"{j}        _P(_h[1]); _h[1] = None; _h[2] = True; _mode = 0")
     L.append(f"{j}    _RUN.add(_op[1]); _m = _M()")
     L.append(f"{j}    try:")
-    L.append(f"{j}        if _mode == 0: _h[0].send(None)")
+    # async generator handle: one step = one send() on the awaitable of the current asend / athrow / aclose; that awaitable is
+    # kept in slot 4 while the async generator is suspended at an await (it hands the suspension token up to this driver)
+    L.append(f"{j}        if _h[3] == \"a\":")
+    # (the awaitable lives only in the handle's slot, never in a local of this frame: a local would be pinned by any f_locals
+    #  snapshot of this frame and delay the finalisation of a dropped async generator)
+    L.append(f"{j}            if _mode == 4 or (_h[4] is not None and _mode == 3):")
+    L.append(f"{j}                _h[4] = None; _h[0] = None; del _H[_op[1]]; _R((\"XD\", _op[1]))")
+    L.append(f"{j}            else:")
+    L.append(f"{j}                if _h[4] is None:")
+    L.append(f"{j}                    if _mode <= 1: _h[4] = _h[0].asend(_op[3] if _mode == 1 else None)")
+    L.append(f"{j}                    elif _mode == 2: _h[4] = _h[0].athrow(_op[3])")
+    L.append(f"{j}                    else: _h[4] = _h[0].aclose()")
+    L.append(f"{j}                try:")
+    L.append(f"{j}                    _h[4].send(None)")
+    L.append(f"{j}                except StopIteration:")
+    L.append(f"{j}                    _h[4] = None")
+    L.append(f"{j}                    if _mode == 3: del _H[_op[1]]; _R((\"XC\", _op[1]))")
+    L.append(f"{j}                except StopAsyncIteration:")
+    L.append(f"{j}                    _h[4] = None; del _H[_op[1]]")
+    L.append(f"{j}                except BaseException:")
+    L.append(f"{j}                    _h[4] = None; raise")
+    L.append(f"{j}        elif _mode == 0: _h[0].send(None)")
     L.append(f"{j}        elif _mode == 1: _h[0].send(_op[3])")
     L.append(f"{j}        elif _mode == 2: _h[0].throw(_op[3])")
     L.append(f"{j}        elif _mode == 3:")
@@ -191,7 +217,7 @@ def render_body(f, ind, is_method_with_super=False):
     L.append(f"{j}    _RUN.discard(_op[1])")
     L.append(f"{j}elif _k == 17:")
     L.append(f"{j}    _R((\"RND\", _c, _RND()))")
-    if names:
+    if names and body != "agen":
         # return the object currently bound to a parameter (possibly re-bound since the call started)
         L.append(f"{j}elif _k == 18:")
         for n_i, n in enumerate(names):
@@ -199,7 +225,7 @@ def render_body(f, ind, is_method_with_super=False):
             L.append(f"{j}    {kw} _op[1] == \"{n}\": _v = {n}")
         L.append(f"{j}    else: _v = None")
         L.append(f"{j}    _R((\"R\", _c, _v)); return _v")
-    if names and body != "coro":
+    if names and body not in ("coro", "agen"):
         # in-place mutation of the container currently bound to a parameter (exact list / dict / set only); the state before
         # the mutation is journaled as a shallow copy made by the type's own C-level constructor
         L.append(f"{j}elif _k == 19:")
@@ -220,7 +246,7 @@ def render_body(f, ind, is_method_with_super=False):
     if f["fid"] == 0:
         L.append(f"{j}elif _k == 16:")
         L.append(f"{j}    _op[1]()")
-    if body == "coro":
+    if body in ("coro", "agen"):
         L.append(f"{j}elif _k == 13:")
         L.append(f"{j}    _R((\"A\", _c)); await _SUSP")
         L.append(f"{j}elif _k == 14:")
@@ -262,7 +288,7 @@ def render_func(f, ind=0, annotations=None):
     ret = ""
     if annotations and annotations.get("ret"):
         ret = " -> " + annotations["ret"]
-    d = "async def" if f["body"] == "coro" else "def"
+    d = "async def" if f["body"] in ("coro", "agen") else "def"
     L.append(f"{i}{d} {f['name']}({sig}){ret}:")
     L.extend(render_body(f, ind + 4))
     if kind == "sproperty":
@@ -550,7 +576,8 @@ def gen_spec(rng, kn=None, pkg="simpkg"):
         fid[0] += 1
         return fid[0]
 
-    bodies = ["plain"] * 5 + (["gen"] * 3 if kn.get("generators", True) else []) + (["coro"] * 2 if kn.get("coroutines", True) else [])
+    bodies = ["plain"] * 5 + (["gen"] * 3 if kn.get("generators", True) else []) + (["coro"] * 2 if kn.get("coroutines", True) else []) + \
+        (["agen"] * 2 if kn.get("async_generators") else [])
     # classes
     ncls = rng.choice([1, 2, 3, 4]) if kn.get("classes", True) else 0
     for ci in range(ncls):
